@@ -54,9 +54,11 @@ async def segment_fetcher(app: NDNApp, name: NonStrictName, timeout=4000, retry_
         yield content
         return
     # If it's segmented
+    # The producer may announce the final block in any segment, not only in the last one: remember it
+    final_id = meta.final_block_id if meta is not None else None
     if Component.to_number(name[-1]) == 0:
         yield content
-        if meta.final_block_id == name[-1]:
+        if final_id == name[-1]:
             return
         seg_no = 1
     else:
@@ -67,6 +69,8 @@ async def segment_fetcher(app: NDNApp, name: NonStrictName, timeout=4000, retry_
         name[-1] = Component.from_segment(seg_no)
         name, meta, content = await retry(False)
         yield content
-        if meta.final_block_id == name[-1]:
+        if meta is not None and meta.final_block_id is not None:
+            final_id = meta.final_block_id
+        if final_id == name[-1]:
             return
         seg_no += 1
